@@ -804,6 +804,40 @@ pub fn plans_for(prop: &str, thorough: bool) -> Vec<Plan> {
                 oracles: o,
                 u_cap: 400,
             });
+            if prop == "C06" {
+                plans.push(Plan {
+                    name: "F-GUARDCALL (guards and one-line functions around a call without parentheses) + F-ARGBLANK (an empty line in front of a call argument) x call_parentheses x collapse, column widths 80 and 120 only",
+                    cases: {
+                        let mut v = gen::f_guardcall();
+                        v.extend(gen::f_argblank());
+                        v
+                    },
+                    cfgs: cross(false, |b| {
+                        let mut v = vec![];
+                        for cp in [0u8, 3, 4] {
+                            for cs in 0..4u8 {
+                                v.push(Cfg { cp, cs, ..b });
+                            }
+                        }
+                        v
+                    }),
+                    widths: Widths::Fixed(&[80, 120]),
+                    ranges: Ranges::None,
+                    oracles: o,
+                    u_cap: 400,
+                });
+            }
+            if prop == "C02" {
+                plans.push(Plan {
+                    name: "F-ACCESS (Luau read / write access modifiers of array types and table-type fields, every type position) x all widths",
+                    cases: gen::f_access(),
+                    cfgs: Box::new(syn_cfgs(false)),
+                    widths: Widths::All,
+                    ranges: Ranges::None,
+                    oracles: o,
+                    u_cap: 400,
+                });
+            }
             plans.push(Plan {
                 name: "F-WS renderings + F-IGN + F-REQ (sort on)",
                 cases: {
@@ -987,6 +1021,15 @@ pub fn plans_for(prop: &str, thorough: bool) -> Vec<Plan> {
             plans.push(Plan {
                 name: "F-TRIVIA(1) on F-STMT x call_parentheses x collapse x all widths",
                 cases: trivia_family(&stmt, kinds),
+                cfgs: cross(false, call_collapse),
+                widths: Widths::All,
+                ranges: Ranges::None,
+                oracles: O_CENSUS,
+                u_cap: 400,
+            });
+            plans.push(Plan {
+                name: "F-BLOCKWS (a block comment whose inner lines end in blanks, in every gap of seven plain statements (no named table field: the comment between a field name and `=` is KF-NAMEKEY-COMMENT)) x call_parentheses x collapse x all widths",
+                cases: gen::f_blockws(),
                 cfgs: cross(false, call_collapse),
                 widths: Widths::All,
                 ranges: Ranges::None,
@@ -1215,6 +1258,15 @@ pub fn plans_for(prop: &str, thorough: bool) -> Vec<Plan> {
             plans.push(Plan {
                 name: "F-STMT / F-STMT-L / F-TRIVIA as written x line_endings x indent_type x indent_width x all widths",
                 cases: { let mut c = bases.clone(); c.extend(tri.clone()); c },
+                cfgs: cross(false, opts.clone()),
+                widths: Widths::All,
+                ranges: Ranges::None,
+                oracles: O_WS,
+                u_cap: 400,
+            });
+            plans.push(Plan {
+                name: "F-DECL (local declarations without an assignment, every subset of 1..3 names annotated) x line_endings x indent x all widths",
+                cases: gen::f_decl(),
                 cfgs: cross(false, opts.clone()),
                 widths: Widths::All,
                 ranges: Ranges::None,
